@@ -181,6 +181,7 @@ func runC20(c *Ctx, tier string) {
 	}
 	runFuseSpillSameContext(c, "C20-X1")
 	runFuseRestartsPerStream(c, "C20-L1")
+	runFuseAggMixesInSeenOrder(c, "C20-O2")
 }
 
 func init() {
